@@ -132,7 +132,10 @@ impl Language for Scala {
             writeln!(w, " */")?;
         }
         if self.package.is_empty() {
-            panic!("package name must be provided")
+            return Err(std::io::Error::new(
+                std::io::ErrorKind::InvalidInput,
+                "a package name must be provided in the typeshare.toml or using --scala-package <package name>",
+            ));
         }
         match self.package.rsplit_once('.') {
             None => {}
